@@ -229,8 +229,21 @@ class Prop:
             d2["nodes"] = fix(desc["nodes"])
             desc = d2
             tree, U = B.build(desc)
+        # results handed out by queries are caller-owned: on ANOTHER tree of the same description (t0, built first) and
+        # on this tree, every returned list is mutated; then the whole battery is asked again: this tree against the
+        # model, t0 against the oracle (module-/class-level state shared by all trees would show on either)
+        pfail = None
+        if desc.get("poison", True):
+            if "hist" in desc:
+                t0, U0 = NH.build_hist(desc)[:2]
+            else:
+                t0, U0 = B.build(desc)
+            pfail = NH.poison_results(t0, bool(desc.get("typed"))) or NH.poison_results(tree, bool(desc.get("typed")))
         obs, fail, nodes, coq_in = self._observe(tree, U, desc, twin=True)
-        fail = hist_fail or fail
+        if desc.get("poison", True) and not pfail:
+            f0 = self._observe(t0, U0, desc, twin=False)[1]
+            pfail = f0 and f"after mutating the lists handed out by the queries of another tree: {f0}"
+        fail = hist_fail or pfail or (fail and (f"(after mutating the lists handed out by the queries) {fail}" if desc.get("poison", True) else fail))
         typed = bool(desc.get("typed"))
         return Case(desc=desc, coq_input=coq_in, impl_obs=obs, oracle_fail=fail,
                     nontrivial=len(nodes) >= 3 or bool(desc.get("hist")),
